@@ -301,6 +301,16 @@ class Loops:
             elif isinstance(test.ops[0], ast.Lt) and isinstance(l, ast.Call) and src(l).startswith('len(') \
                     and isinstance(l.args[0], ast.Name):
                 shape, cursor, bound_by_test = 'grow', l.args[0].id, True
+        if shape is None and isinstance(test, ast.Name):
+            # `while data:` over a buffer the loop only ever replaces by a tail of itself: the truth of a sequence is len(data) > 0
+            stores = [x for x in walk_no_nested(loop) if isinstance(x, ast.Assign) and any(
+                isinstance(t_, ast.Name) and t_.id == test.id for t in x.targets for t_ in ast.walk(t))]
+            if stores and all(len(x.targets) == 1 and isinstance(x.targets[0], ast.Name) and isinstance(x.value, ast.Subscript)
+                              and isinstance(x.value.slice, ast.Slice) and src(x.value.value) == test.id for x in stores) \
+                    and not any(isinstance(x, (ast.AugAssign, ast.For, ast.With, ast.NamedExpr)) and test.id in
+                                {y.id for y in ast.walk(getattr(x, 'target', None) or x) if isinstance(y, ast.Name) and isinstance(y.ctx, ast.Store)}
+                                for x in walk_no_nested(loop)):
+                shape, cursor, bound_by_test = 'shrink', test.id, True
         if shape is None:
             # loop test does not name a cursor: look for an integer cursor that bounds itself
             # through unpack_from(fmt, D, cursor)
